@@ -295,9 +295,8 @@ class SED(object):
             raise ValueError("Frequencies are not set")
         else:
             twav['FREQUENCY'] = self.nu
-        twav.sort('FREQUENCY')
-
-        # TODO: here sorting needs to be applied to fluxes too?
+        order = np.argsort(twav['FREQUENCY'])
+        twav = twav[order]
 
         hdu1 = fits.BinTableHDU(np.array(twav))
         hdu1.columns[0].unit = self.wav.unit.to_string(format='fits')
@@ -323,11 +322,11 @@ class SED(object):
         if self.flux is None:
             raise ValueError("Fluxes are not set")
         else:
-            tflux['TOTAL_FLUX'] = self.flux
+            tflux['TOTAL_FLUX'] = self.flux[:, order]
         if self.error is None:
             raise ValueError("Errors are not set")
         else:
-            tflux['TOTAL_FLUX_ERR'] = self.error
+            tflux['TOTAL_FLUX_ERR'] = self.error[:, order]
         hdu3 = fits.BinTableHDU(np.array(tflux))
         hdu3.columns[0].unit = self.flux.unit.to_string(format='fits')
         hdu3.columns[1].unit = self.error.unit.to_string(format='fits')
